@@ -1208,3 +1208,56 @@ func isIntConst(v ssa.Value, n int64) bool {
 	x, exact := constant.Int64Val(c.Value)
 	return exact && x == n
 }
+
+// aliasHelperResults rewrites facts so that the first result of a private helper of the package
+// that, on its success path, returns exactly one expression (`block, err := c.signedBlock(hash)`
+// with `signedBlock` returning `(Get(hash)#0, nil)` or `(nil, error)`) is named by that expression
+// in the caller's terms. Rules that recognise a term by its shape (View(Get(qc.BlockHash())#0))
+// then see through the helper.
+func aliasHelperResults(fl *Flow, facts FactSet) FactSet {
+	repl := map[string]string{}
+	eachInstr(fl.Fn, func(in ssa.Instruction) {
+		ex, ok := in.(*ssa.Extract)
+		if !ok || ex.Index != 0 {
+			return
+		}
+		if _, isCall := ex.Tuple.(*ssa.Call); !isCall {
+			return
+		}
+		var keys []string
+		for _, lf := range helperResultLeaves(fl, ex, facts) {
+			if lf.Val != nil && isNilConst(lf.Val) {
+				continue
+			}
+			if lf.Key == "" {
+				return
+			}
+			keys = append(keys, lf.Key)
+		}
+		if len(keys) == 1 {
+			repl[fl.K.Key(ex)] = keys[0]
+		}
+	})
+	if len(repl) == 0 {
+		return facts
+	}
+	sub := func(k string) string {
+		for from, to := range repl {
+			k = strings.ReplaceAll(k, from, to)
+		}
+		return k
+	}
+	out := FactSet{}
+	for f := range facts {
+		g := Fact{f.Op, sub(f.L), ""}
+		if f.R != "" {
+			g.R = sub(f.R)
+		}
+		if (g.Op == "==" || g.Op == "!=") && g.L > g.R {
+			g.L, g.R = g.R, g.L
+		}
+		out[g] = true
+		out[f] = true
+	}
+	return out
+}
